@@ -227,7 +227,8 @@ Lemma pinfix_S n f l p : pinfix upd (S n) f l p =
                      else let '(ok2, p) := expect_peek p IDENT in
                           if ok2 then Some (EBetween t l lo (EIdent (cur p)), p) else Some (ENil, p)
   | IIn => let '(ok, p) := expect_peek p LPAREN in
-           if ok then let t := cur p in bind (pargs upd n p) (fun '(a, p) => Some (EIn t l a, p)) else Some (ENil, p)
+           if ok then let t := cur p in bind (pargs upd n p) (fun '(a, p) => Some (EIn t l a, match a with Some [] => add_err p | _ => p end))
+           else Some (ENil, p)
   end.
 Proof. reflexivity. Qed.
 
@@ -327,7 +328,8 @@ Proof.
       * destruct (Ag p I ltac:(lia)) as [r [p1 [-> [I1 M1]]]]. cbn [bind]. apply ok_here; auto.
       * pose proof (expect_peek_ok p LPAREN I) as [I0 M0]. destruct (expect_peek p LPAREN) as [ok0 p0]; cbn [snd] in *.
         destruct ok0; [|apply ok_here; auto].
-        destruct (Ag p0 I0 ltac:(lia)) as [r [p1 [-> [I1 M1]]]]. cbn [bind]. apply ok_here; auto; lia.
+        destruct (Ag p0 I0 ltac:(lia)) as [r [p1 [-> [I1 M1]]]]. cbn [bind].
+        destruct r as [[|r0 rs]|]; apply ok_here; auto; rewrite ?add_err_mu; lia.
     + (* pargs *)
       intros p I Hn. rewrite pargs_S. cbv zeta. pose proof (next_mu_le p) as Mn. pose proof (next_inv p I) as In.
       destruct (peek_is p RPAREN); [apply ok_here; auto|].
